@@ -1652,6 +1652,10 @@ class Interp:
 
     def st_For(self, st, state, frame):
         it = self.eval(st.iter, state, frame)
+        it_ = self.models._iterate_instance(self, it, state, st.iter,
+                                            presize=False)
+        if it_ is not None:
+            it = it_  # an instance of a package class: its __iter__ runs
         seq = self.models.static_sequence(self, it, state)
         if seq is None and isinstance(it, Ref):
             o_ = self.obj(state, it)
@@ -3129,6 +3133,10 @@ class Interp:
                 return
             g = node.generators[gi]
             it = self.eval(g.iter, state, frame)
+            it_ = self.models._iterate_instance(self, it, state, g.iter,
+                                                presize=False)
+            if it_ is not None:
+                it = it_  # an instance of a package class: its __iter__
             seq = self.models.static_sequence(self, it, state)
             if seq is None:
                 more[0] = True
@@ -3173,8 +3181,20 @@ class Interp:
         args = []
         for a in node.args:
             if isinstance(a, ast.Starred):
-                seq = self.models.static_sequence(
-                    self, self.eval(a.value, state, frame), state)
+                sv = self.eval(a.value, state, frame)
+                seq = self.models.static_sequence(self, sv, state)
+                if seq is None and isinstance(sv, Sym) and \
+                        sv.op == 'slice' and \
+                        isinstance(sv.args[1], int) and \
+                        isinstance(sv.args[2], int) and \
+                        0 <= sv.args[1] <= sv.args[2] <= sv.args[1] + 16:
+                    # *value[a:b] with constant bounds: the elements
+                    # value[a] ... value[b-1] (a shorter value gives fewer)
+                    self.raise_pending(state, Ext('builtins.TypeError'),
+                                       node, 'fewer elements than the '
+                                       'slice bounds')
+                    seq = [T.index(sv.args[0], i)
+                           for i in range(sv.args[1], sv.args[2])]
                 if seq is None:
                     raise Unsupported('*args with dynamic sequence at ' +
                                       self.site(node))
